@@ -4,7 +4,7 @@ CONFIG = {
     "bsv_cmd": "c12",
     "technique": "Lean 4 proofs over a writer-interleaving model and a session/handler-skeleton model of the DAP adapter + acceptor correspondence with the real DebugSession driven in-process over a mock transport + independent wire oracle",
     "level_text": "Theorems for ALL request histories (induction over the history) and ALL schedules of the three transport writers (induction over the schedule) about hand-written executable models of DebugSession::run/dispatch/drain_events and of the seq-allocation/transport-write steps; the session model is tied to the real adapter on every run by replaying grammar-derived request histories (valid, missing, ill-typed, absent arguments; repeated, out of order) against the real DebugSession in forked workers and comparing the canonicalised wire per request; the writer model is tied by reconstructing the schedule from the recorded allocation log and comparing sequence numbers in wire order; an independent wire checker re-decides the five clauses.",
-    "level_note": "Full statements C12_one_response, C12_seq_is_wire_order, C12_silent_after_terminated are proved for the repaired code (the three defects of the code as found - `continue` answered twice, sequence numbers taken before the transport lock, `initialized` and forwarder output after `terminated` - are fixed in the repository: known_findings.txt `fixed:` lines; the former counterexamples stay as corpus replays). Debuggee outcomes (stop/exit, thread counts, evaluate result) enter the model as observed hints. Scheduler = arbitrary interleaving of atomic steps, a writer scheduled while another holds the transport lock is blocked (the real scheduler is only sampled). The forwarders' part of `nothing after terminated` and `no output lost` is decided by the wire oracle only (the forwarder output is not part of the session model).",
+    "level_note": "Full statements C12_one_response, C12_seq_is_wire_order, C12_silent_after_terminated are proved for the repaired code (the three defects of the code as found - `continue` answered twice, sequence numbers taken before the transport lock, `initialized` and forwarder output after `terminated` - are fixed in the repository: known_findings.txt `fixed:` lines; the former counterexamples stay as corpus replays). Debuggee outcomes (stop/exit, thread counts, evaluate result) enter the model as observed hints. Scheduler = arbitrary interleaving of atomic steps, a writer scheduled while another holds the transport lock is blocked (the real scheduler is only sampled). The forwarders' part of `nothing after terminated` is proved on a latch model of the writers that is read from the code (tied textually by the table extractor, not by the correspondence run) and re-decided by the wire oracle; `no output lost` is decided by the wire oracle only.",
     "runs": {"quick": [{"n": 280}], "thorough": [{"n": 4000, "timeout": 6000}]},
     "shrinkable": True,
     "assumptions": [
